@@ -149,8 +149,11 @@ func marshalElement(elem r.Element) ([]byte, error) {
 			buf = append(buf, item...)
 		}
 		return append(buf, '}'), nil
-	default:
+	case nil, *value.Null, *value.String, *value.Bool, *value.Number:
 		return json.Marshal(buildPlainValueFromElement(elem))
+	default:
+		// methods, types, objects... have no JSON form (writing null would lose them silently)
+		return nil, fmt.Errorf("json: unsupported value: %s", elem.String())
 	}
 }
 
